@@ -6,8 +6,8 @@ import (
 )
 
 func getSliceProperty[TPropertyType any](value *any, targetType reflect.Type) (*TPropertyType, error) {
-	// Ensure the value is also a slice
-	if reflect.TypeOf(*value).Kind() != reflect.Slice {
+	// Ensure the value is also a slice (a JSON null yields a nil interface whose reflect.Type is nil)
+	if *value == nil || reflect.TypeOf(*value).Kind() != reflect.Slice {
 		return nil, fmt.Errorf("value %v cannot be converted to type %s", value, targetType.String())
 	}
 
